@@ -149,9 +149,23 @@ MarkIn(f) == <<73>> \o JoinWith(f, <<SL>>)             \* content of the file: "
 MarkOut(f) == <<79>> \o JoinWith(f, <<SL>>)            \* "O" path
 MarksInside == {MarkIn(f) : f \in FilesInside}
 
+(* A '%' that is not followed by two hex digits is not an escape: it and every character behind it must arrive   *)
+(* as written - nothing may be dropped or turned into another character.  What stays open for such a (malformed)   *)
+(* text is only whether the genuine escapes BEHIND the first non-escape '%' are still decoded (an implementation   *)
+(* may stop decoding there); with open = TRUE that choice is open for every escape (query part).                   *)
+(* Lenient(s, i, p, j, open): p from j on is such a reading of s from i on.                                        *)
+RECURSIVE Lenient(_, _, _, _, _)
+Lenient(s, i, p, j, open) ==
+  IF i > Len(s) THEN j > Len(p)
+  ELSE IF j > Len(p) THEN FALSE
+  ELSE IF IsEsc(s, i) THEN
+         \/ (p[j] = 16 * HexVal(s[i + 1]) + HexVal(s[i + 2]) /\ Lenient(s, i + 3, p, j + 1, open))
+         \/ (open /\ p[j] = PCT /\ Lenient(s, i + 1, p, j + 1, open))
+  ELSE p[j] = s[i] /\ Lenient(s, i + 1, p, j + 1, open \/ s[i] = PCT)
+UriQuery(u) == LET q == IndexFrom(u, QM, 1) IN IF q = 0 THEN <<>> ELSE SubSeq(u, q + 1, Len(u))
 (* verdict on one observed HTTP exchange: uri u, argument p given to the file lookup (if any), *)
 (* status st, body.  Returns "ok" or the name of the violated clause.                          *)
-HttpVerdict(u, hasp, p, st, body) ==
+HttpVerdict(u, hasp, p, hasq, q, st, body) ==
   LET path == UriPath(u)
       wf == WellFormed(path)
       d == PctDecode(path)
@@ -162,6 +176,8 @@ HttpVerdict(u, hasp, p, st, body) ==
           ELSE IF p = PctDecode(d) THEN "pct-decode:decoded-twice"
           ELSE IF p = UriPath(d) THEN "pct-decode:decoded-delimiter-splits-path"   \* %3f taken for the query separator
           ELSE "pct-decode:other")
+  ELSE IF ~wf /\ hasp /\ ~Lenient(path, 1, p, 1, FALSE) THEN "pct-decode:non-escape-altered"
+  ELSE IF hasq /\ ~Lenient(UriQuery(u), 1, q, 1, TRUE) THEN "pct-decode:query-altered"
   ELSE IF st = 200 /\ wf /\ ~Confined(d) THEN "served-unconfined-path"  \* "..", "//" or no leading "/"
   ELSE IF st = 200 /\ wf /\ body # MarkIn(Resolve(d)) THEN "served-wrong-file"
   ELSE IF wf /\ Confined(d) /\ ~HasEncodedSlash(path) /\ Resolve(d) \in FilesInside
@@ -174,6 +190,12 @@ RECURSIVE Pow(_, _)
 Pow(b, n) == IF n = 0 THEN 1 ELSE b * Pow(b, n - 1)
 RECURSIVE UriCount(_)
 UriCount(n) == IF n = 0 THEN 1 ELSE Pow(8, n) + UriCount(n - 1)
+
+LemmaLenient == /\ \A s \in UrisUpTo(4) : Lenient(s, 1, PctDecode(s), 1, FALSE)      \* strict decoding is a lenient reading
+                /\ \A s \in UrisUpTo(3) : WellFormed(s) => \A p \in UrisUpTo(3) : Lenient(s, 1, p, 1, FALSE) => p = PctDecode(s)
+                /\ ~Lenient(<<37,50,46>>, 1, <<2>>, 1, FALSE)                          \* "%2." must not become \x02
+                /\ Lenient(<<37,50,46,37,50,101>>, 1, <<37,50,46,37,50,101>>, 1, FALSE) \* "%2.%2e" may stay as it is
+                /\ Lenient(<<37,50,46,37,50,101>>, 1, <<37,50,46,46>>, 1, FALSE)       \* ... or have the later escape decoded
 
 (* token level URIs: "/" followed by <= n tokens, optionally a trailing "/" *)
 UriTokens == { <<37,50,101>>, <<37,50,69>>, <<37,50,102>>, <<37,50,53>>, <<PCT>>, <<SL>>, <<DOT>>, <<ca>>,
